@@ -52,6 +52,9 @@ var zzWeightJournals = []string{
 	// two commodities of equal value, a third of a different value
 	0: "2020-01-01 open Assets:A\n2020-01-01 open Equity:Equity\n2020-01-01 price AAA 2 CHF\n2020-01-01 price BBB 2 CHF\n2020-01-01 price CCC 5 CHF\n\n" +
 		"2020-01-02 \"buy\"\nEquity:Equity Assets:A 10 AAA\nEquity:Equity Assets:A 10 BBB\nEquity:Equity Assets:A 1 CCC\n",
+	// three month ends with changing prices (weights summed over several dates)
+	2: "2020-01-01 open Assets:A\n2020-01-01 open Equity:Equity\n2020-01-01 price AAA 2 CHF\n2020-01-01 price BBB 3 CHF\n2020-02-10 price AAA 2.5 CHF\n2020-03-10 price BBB 2.25 CHF\n\n" +
+		"2020-01-02 \"buy\"\nEquity:Equity Assets:A 10 AAA\nEquity:Equity Assets:A 7 BBB\n\n2020-02-15 \"buy\"\nEquity:Equity Assets:A 3 AAA\n\n2020-03-20 \"buy\"\nEquity:Equity Assets:A 1 BBB\n",
 	// all values different
 	1: "2020-01-01 open Assets:A\n2020-01-01 open Equity:Equity\n2020-01-01 price AAA 2 CHF\n2020-01-01 price BBB 3 CHF\n\n" +
 		"2020-01-02 \"buy\"\nEquity:Equity Assets:A 10 AAA\nEquity:Equity Assets:A 10 BBB\n",
@@ -76,7 +79,11 @@ func VerifWeightsDeterministic() {
 		cmd.SetContext(context.Background())
 		r := weightsRunner{csv: true, sortAlphabetically: alpha}
 		r.valuation.Set("CHF")
-		r.Multiperiod.ZZSet("", "2999-12-31", 0, 0, false)
+		if v.Param("journal") == 2 {
+			r.Multiperiod.ZZSet("", "2999-12-31", 0, 3, true) // --months
+		} else {
+			r.Multiperiod.ZZSet("", "2999-12-31", 0, 0, false)
+		}
 		if v.Symbolic() {
 			v.Override("github.com/sboehler/knut/lib/journal.FromPath", func(ctx context.Context, reg *model.Registry, path string) (*journal.Builder, error) {
 				return zzLoad(reg, text)
